@@ -153,6 +153,7 @@ func (e *c18Env) userOp(step string, fn func() error) error {
 		e.logf("%s failed: %v -- repeating", step, err)
 		// an operation that reported failure must not go on in the background: whatever it may have
 		// queued runs before the repetition
+		e.wd.W.WorkerParked(20 * time.Second)
 		e.wd.W.WorkerIdle(20 * time.Second)
 		e.wd.W.Quiesce(20 * time.Second)
 	}
